@@ -74,6 +74,81 @@ def mutants_of(mod, text):
     return out
 
 
+SWAPS_ATTR = [("path_must_exists", "path_must_not_exists"), ("path_must_be_dir", "path_must_be_file"), ("readable", "writable"), ("is_dir", "is_file"),
+              ("login_required", "user_required"), ("passive_server_started", "data_connection_made"), ("read_timeout", "write_timeout"), ("idle_timeout", "socket_timeout"),
+              ("read", "write"), ("acquire", "release"), ("real_path", "virtual_path"), ("ctime", "mtime"), ("st_ctime", "st_mtime"), ("lstrip", "rstrip"), ("partition", "rpartition"),
+              ("index", "rindex"), ("popleft", "pop"), ("home_path", "base_path"), ("user", "logged"), ("throttle", "throttle_per_connection"),
+              ("read_speed_limit", "write_speed_limit"), ("put_nowait", "get_nowait"), ("done", "cancelled"), ("startswith", "endswith"), ("source", "destination")]
+SWAPS_STR = [("read", "write"), ("type", "Type"), ("size", "Size"), ("modify", "create"), ("dir", "file"), ("server_global", "server_per_connection"), ("user_global", "user_per_connection"),
+             ("MLSD", "LIST"), ("EPSV", "PASV"), ("STOR ", "APPE "), ("RNFR ", "RNTO "), ("I", "A"), ("-", " "), (" ", "-"), ("..", "."), ("/", "")]
+
+
+def mutants2_of(mod, text):
+    """second operator set: wrong-name mutants (attribute / keyword / string / local-name swaps), slice bounds, dropped awaits of non-coroutines are not generated"""
+    tree = ast.parse(text)
+    nodes = list(ast.walk(tree))
+    out = []
+
+    def emit(desc, node, mutate):
+        t2 = copy.deepcopy(tree)
+        n2 = list(ast.walk(t2))[nodes.index(node)]
+        if mutate(n2, t2) is False:
+            return
+        try:
+            ast.fix_missing_locations(t2)
+            new = ast.unparse(t2)
+            compile(new, mod, "exec")
+        except Exception:
+            return
+        if new != ast.unparse(tree):
+            out.append({"module": mod, "line": getattr(node, "lineno", 0), "desc": desc, "source": new})
+    pairs_a = {}
+    for a, b in SWAPS_ATTR:
+        pairs_a[a] = b
+        pairs_a[b] = a
+    pairs_s = {}
+    for a, b in SWAPS_STR:
+        pairs_s.setdefault(a, b)
+        pairs_s.setdefault(b, a)
+    for n in nodes:
+        if isinstance(n, ast.Attribute) and n.attr in pairs_a:
+            emit(f"attr {n.attr}->{pairs_a[n.attr]}: {ast.unparse(n)[:50]}", n, lambda m, t: setattr(m, "attr", pairs_a[m.attr]))
+        if isinstance(n, ast.keyword) and n.arg in pairs_a:
+            emit(f"kwarg {n.arg}->{pairs_a[n.arg]}", n, lambda m, t: setattr(m, "arg", pairs_a[m.arg]))
+        if isinstance(n, ast.Name) and isinstance(n.ctx, ast.Load) and n.id in pairs_a:
+            emit(f"name {n.id}->{pairs_a[n.id]}", n, lambda m, t: setattr(m, "id", pairs_a[m.id]))
+        if isinstance(n, ast.Constant) and isinstance(n.value, str) and n.value in pairs_s:
+            emit(f"str {n.value!r}->{pairs_s[n.value]!r}", n, lambda m, t: setattr(m, "value", pairs_s[m.value]))
+        if isinstance(n, ast.Slice):
+            for fld in ("lower", "upper"):
+                b = getattr(n, fld)
+                if isinstance(b, ast.Constant) and isinstance(b.value, int):
+                    emit(f"slice {fld} {b.value}->{b.value + 1}", n, lambda m, t, fld=fld: setattr(getattr(m, fld), "value", getattr(m, fld).value + 1))
+        if isinstance(n, ast.Call) and len(n.args) == 2 and not n.keywords and not any(isinstance(a, ast.Starred) for a in n.args) and ast.unparse(n.args[0]) != ast.unparse(n.args[1]):
+            emit(f"swap args: {ast.unparse(n)[:50]}", n, lambda m, t: m.args.reverse())
+        if isinstance(n, ast.Compare) and len(n.ops) == 1 and isinstance(n.ops[0], (ast.Lt, ast.LtE, ast.Gt, ast.GtE)):
+            emit(f"swap operands: {ast.unparse(n)[:50]}", n, lambda m, t: (setattr(m, "left", m.comparators[0]) or True) and m.comparators.__setitem__(0, copy.deepcopy(n.left)))
+        if isinstance(n, ast.BinOp) and isinstance(n.op, (ast.Sub, ast.Div)):
+            emit(f"swap binop operands: {ast.unparse(n)[:50]}", n, lambda m, t: (lambda l, r: (setattr(m, "left", r), setattr(m, "right", l)))(m.left, m.right))
+        if isinstance(n, ast.BinOp) and isinstance(n.op, ast.Add) and not isinstance(n.left, ast.Constant):
+            emit(f"+ -> -: {ast.unparse(n)[:50]}", n, lambda m, t: setattr(m, "op", ast.Sub()))
+        if isinstance(n, ast.AugAssign) and isinstance(n.op, (ast.Add, ast.Sub)):
+            emit(f"aug {type(n.op).__name__} flipped: {ast.unparse(n)[:50]}", n, lambda m, t: setattr(m, "op", ast.Sub() if isinstance(m.op, ast.Add) else ast.Add()))
+    return out
+
+
+def gen2():
+    allm = []
+    for m in MODS:
+        ms = mutants2_of(m, (SRC / m).read_text())
+        print(m, len(ms))
+        allm += ms
+    for i, x in enumerate(allm):
+        x["id"] = 100000 + i
+    (WORK / "mutants2.json").write_text(json.dumps(allm))
+    print("total", len(allm))
+
+
 def _swap(node, tree, cls):
     for p in ast.walk(tree):
         for fld in ("body", "orelse", "finalbody"):
@@ -113,18 +188,21 @@ def _suite_one(x):
         shutil.rmtree(d, ignore_errors=True)
 
 
+SUF = os.environ.get("MUT_SET", "")
+
+
 def suite():
-    allm = json.loads((WORK / "mutants.json").read_text())
-    done = json.loads((WORK / "suite.json").read_text()) if (WORK / "suite.json").exists() else {}
+    allm = json.loads((WORK / f"mutants{SUF}.json").read_text())
+    done = json.loads((WORK / f"suite{SUF}.json").read_text()) if (WORK / f"suite{SUF}.json").exists() else {}
     todo = [x for x in allm if str(x["id"]) not in done]
     print("todo", len(todo))
     with cf.ProcessPoolExecutor(int(os.environ.get("MUT_JOBS", "12"))) as ex:
         for k, (i, line) in enumerate(ex.map(_suite_one, todo)):
             done[str(i)] = line
             if k % 50 == 0:
-                (WORK / "suite.json").write_text(json.dumps(done))
+                (WORK / f"suite{SUF}.json").write_text(json.dumps(done))
                 print(k, "/", len(todo), flush=True)
-    (WORK / "suite.json").write_text(json.dumps(done))
+    (WORK / f"suite{SUF}.json").write_text(json.dumps(done))
     surv = [i for i, l in done.items() if l.startswith("1 failed, 335 passed")]
     print("survivors", len(surv), "of", len(done))
 
@@ -144,26 +222,26 @@ def _check_one(x):
 
 
 def checks():
-    allm = {x["id"]: x for x in json.loads((WORK / "mutants.json").read_text())}
-    done = json.loads((WORK / "suite.json").read_text())
+    allm = {x["id"]: x for x in json.loads((WORK / f"mutants{SUF}.json").read_text())}
+    done = json.loads((WORK / f"suite{SUF}.json").read_text())
     surv = [allm[int(i)] for i, l in done.items() if l.startswith("1 failed, 335 passed")]
-    if os.environ.get("MUT_ONLY") == "silent" and (WORK / "silent.txt").exists():
-        ids = {int(l.split("\t")[0]) for l in (WORK / "silent.txt").read_text().splitlines() if l.strip()}
+    if os.environ.get("MUT_ONLY") == "silent" and (WORK / f"silent{SUF}.txt").exists():
+        ids = {int(l.split("\t")[0]) for l in (WORK / f"silent{SUF}.txt").read_text().splitlines() if l.strip()}
         surv = [x for x in surv if x["id"] in ids]
     print("survivors", len(surv))
-    res = json.loads((WORK / "checks.json").read_text()) if os.environ.get("MUT_ONLY") == "silent" and (WORK / "checks.json").exists() else {}
+    res = json.loads((WORK / f"checks{SUF}.json").read_text()) if os.environ.get("MUT_ONLY") == "silent" and (WORK / f"checks{SUF}.json").exists() else {}
     with cf.ProcessPoolExecutor(14) as ex:
         for i, fired in ex.map(_check_one, surv):
             res[str(i)] = fired
-    (WORK / "checks.json").write_text(json.dumps(res))
+    (WORK / f"checks{SUF}.json").write_text(json.dumps(res))
     quiet = [allm[int(i)] for i, f in res.items() if not f]
     soft = [allm[int(i)] for i, f in res.items() if f and all(isinstance(v, str) for v in f.values())]
     print("reported by some check:", len(res) - len(quiet) - len(soft), " only exit-2:", len(soft), " silent:", len(quiet))
-    with open(WORK / "silent.txt", "w") as fh:
+    with open(WORK / f"silent{SUF}.txt", "w") as fh:
         for x in sorted(quiet, key=lambda x: (x["module"], x["line"])):
             fh.write(f'{x["id"]}\t{x["module"]}:{x["line"]}\t{x["desc"]}\n')
-    print("silent survivors listed in", WORK / "silent.txt")
+    print("silent survivors listed in", WORK / f"silent{SUF}.txt")
 
 
 if __name__ == "__main__":
-    {"gen": gen, "suite": suite, "checks": checks}[sys.argv[1]]()
+    {"gen": gen, "gen2": gen2, "suite": suite, "checks": checks}[sys.argv[1]]()
